@@ -270,6 +270,8 @@ PAYLOADS = {
     # (the text UNKNOWN_X is part of these tags: the checks look for it in the warning)
     "blk_digit_tag": [["/begin", "3D_UNKNOWN_X", "1", "/end", "3D_UNKNOWN_X"]],
     "blk_long_tag": [["/begin", "UNKNOWN_X" + "_L" * 600, "1", "/end", "UNKNOWN_X" + "_L" * 600]],
+    # an unknown block that holds a block of its own tag (the inner /end UNKNOWN_X does not end the outer block)
+    "blk_same_tag_inside": [["/begin", "UNKNOWN_X", "1"], ["  ", "/begin", "UNKNOWN_X", "2", "/end", "UNKNOWN_X"], ["  ", "3"], ["/end", "UNKNOWN_X"]],
     "kw_with_block": [["UNKNOWN_X", "1", "/begin", "INNER_Y", "x", "/end", "INNER_Y"]],
     "kw_with_two_blocks": [["UNKNOWN_X", "/begin", "INNER_Y", "/end", "INNER_Y", "2", "/begin", "INNER_Z", "/begin", "INNER_W", "/end", "INNER_W", "/end", "INNER_Z"]],
 }
